@@ -125,6 +125,19 @@ class C05Monitor(Monitor):
                 )
         if n_active >= 2:
             x.flag(">=2 active demes at T")
+        # run() called once more on the finished tree: the condition holds, so nothing at all may happen
+        if x.drive == "run" and self.last_verdict is True and not x.desc.get("no_second_run"):
+            from ..world import tree_digest
+
+            n0, me0, dg0 = len(x.w.log), tree.metaepoch_count, tree_digest(tree)
+            try:
+                tree.run()
+            except Exception as e:
+                x.violate("C05/second-run-raised", f"run() on the finished tree raised {type(e).__name__}: {e}")
+            if len(x.w.log) != n0 or tree.metaepoch_count != me0 or tree_digest(tree) != dg0:
+                x.violate("C05/second-run-did-something", f"run() called again on the finished tree: {len(x.w.log) - n0} evaluations, metaepoch counter {me0} -> {tree.metaepoch_count}")
+            else:
+                x.flag("second run() on the finished tree did nothing")
 
 
 BOUNDARY_KINDS = ("evals", "fevals", "precision", "rootstopped", "allstopped")
